@@ -8,6 +8,7 @@
    15 / 16 = a well-formed record does not survive msgpack / JSON (tag 1: it carries an element of a bare
         multiaddr.Multiaddr interface type, finding origins-undecodable);
    17 = Pin.Equals / PinOptions.Equals on two well-formed values differs from field-by-field sameness;
+   20 = a recorded malformed input still makes its decoder panic / yield a value that cannot be re-encoded;
    14 = a status filter of defined bits / a named pin type / a pin mode does not survive its string form. *)
 From V Require Import Base.Common Base.C08_Str Model.C08_Codec Model.C08_Query Model.C08_Status Base.C08_Schema Gen.C08Tags Model.C08_Fmap Model.C08_Equals.
 Open Scope Z_scope.
@@ -122,7 +123,8 @@ Inductive payload :=
   | CModeStr (m : Z) (s : string) (back : Z)       (* PinMode(m).String() ; PinModeFromString *)
   | CMsgpack (tn : string) (v : val) (o : obs_v)   (* value of record type tn through the msgpack codec into a fresh value *)
   | CJson (tn : string) (v : val) (o : obs_v)
-  | CEquals (same : bool) (p q : pin) (b bo : bool).   (* p.Equals(q) = b ; p.PinOptions.Equals(&q.PinOptions) = bo *)
+  | CEquals (same : bool) (p q : pin) (b bo : bool)    (* p.Equals(q) = b ; p.PinOptions.Equals(&q.PinOptions) = bo *)
+  | CFuzz (dec : string) (clean : bool).               (* replay of one recorded malformed input: did the decoder behave *)
 
 Definition case := (N * payload)%type.
 
@@ -192,6 +194,7 @@ Definition check_case (c : case) : list (N * N * N) :=
       fail_if (negb (Bool.eqb (pin_equals same p q) b && Bool.eqb (opts_equals same (Some (popts p)) (Some (popts q))) bo)) id 1 0 ++
       fail_if (negb same && wf_eq_pin p && wf_eq_pin q
                && negb (Bool.eqb b (pin_sameb p q) && Bool.eqb bo (opts_sameb (popts p) (popts q)))) id 17 0
+  | CFuzz _ clean => fail_if (negb clean) id 20 0
   end.
 
 Definition failing (cs : list case) : list (N * N * N) := flat_map check_case cs.
